@@ -151,6 +151,11 @@ impl RecomputeHeap {
         if node.height() < self.height_lower_bound.get() {
             self.height_lower_bound.set(node.height());
         }
+        #[cfg(cormacrelf_incremental_rs_verif)]
+        crate::verif::ev(
+            "rch_insert",
+            &[("n", crate::verif::nix(&node)), ("h", node.height() as i64)],
+        );
         self.link(node);
         self.length.increment();
     }
@@ -161,6 +166,8 @@ impl RecomputeHeap {
             node.is_in_recompute_heap() && !node.needs_to_be_computed(),
             "incorrect attempt to remove node from recompute heap"
         );
+        #[cfg(cormacrelf_incremental_rs_verif)]
+        crate::verif::ev("rch_remove", &[("n", crate::verif::nix(&node))]);
         self.unlink(&node);
         node.height_in_recompute_heap().set(-1);
         self.length.decrement();
@@ -190,6 +197,11 @@ impl RecomputeHeap {
         debug_assert!(node.height() > node.height_in_recompute_heap().get());
         debug_assert!(node.is_in_recompute_heap());
         debug_assert!(node.height() <= self.max_height_allowed());
+        #[cfg(cormacrelf_incremental_rs_verif)]
+        crate::verif::ev(
+            "rch_raise",
+            &[("n", crate::verif::nix(node)), ("h", node.height() as i64)],
+        );
         self.unlink(node);
         self.link(node.clone()); // sets height_in_recompute_heap <- height
     }
@@ -218,6 +230,14 @@ impl RecomputeHeap {
         }
         let mut q = queue.borrow_mut();
         let node = q.pop_front()?;
+        #[cfg(cormacrelf_incremental_rs_verif)]
+        crate::verif::ev(
+            "rch_pop",
+            &[
+                ("n", crate::verif::nix(&node)),
+                ("h", node.height_in_recompute_heap().get() as i64),
+            ],
+        );
         node.height_in_recompute_heap().set(-1);
         self.length.decrement();
         Some(node)
